@@ -77,6 +77,7 @@ PROPS = {
         "runs": [
             {"profile": "c18hash", "n_quick": 10000, "n_thorough": 200000, "nontrivial": "any"},
             {"profile": "cli18", "kind": "cli", "n_quick": 4, "n_thorough": 40, "nontrivial": "any"},
+            {"profile": "c17lib", "n_quick": 300, "n_thorough": 10000, "nontrivial": "any"},
         ],
         "observable": "(a) 64-bit value of DefaultHasher::new() on a path, in-process; (b) set of files for which the real CLI prints a status line, per (N, id), in separate processes, configured by flags / SLT_PARTITION_* / Buildkite variables; oracle on the CLI alone: every file of a multi-match glob covered exactly once over all ids, identical selection on re-run, invalid configurations rejected without engine traffic",
         "exhaustive": True,
